@@ -242,6 +242,11 @@ def _hist_terms(case):
                 last[st["obj"]] = t
                 if t is not None:
                     out.append((i, t))
+            elif op == "helpers":
+                gh = _raw_graphs(st["rsmi"])
+                if gh is None or not _ascii_elems(*gh) or gh[1].number_of_nodes() == 0 or not _simple(*gh):
+                    continue
+                out.append((i, "run_remap_list %s [%s]" % (E.coq_mgraph(E.from_nx(gh[1])), "; ".join(E.cN(n) for n in sorted(gh[1].nodes)))))
             elif op == "props":
                 t = last.get(st["obj"])
                 if t is not None:
@@ -253,7 +258,7 @@ def _hist_terms(case):
                     continue
                 lits = [(E.coq_mgraph(E.from_nx(a)), E.coq_mgraph(E.from_nx(b))) for a, b in ghs]
                 if st["api"].startswith("dicts"):
-                    if len(set(rs)) != len(rs):
+                    if len(set(rs)) != len(rs) and st["api"] != "dicts":
                         continue
                     out.append((i, "run_bal_part [%s]" % "; ".join("(%d%%nat, (%s, %s))" % (k, a, b) for k, (a, b) in enumerate(lits))))
                 else:
@@ -329,6 +334,11 @@ def _oracle_hist(case):
                     fails.append(_fail("canon-unmapped-sides", "%s: unmapped sides changed in %r" % (where, out)))
             if not got.get("returns_self", True):
                 fails.append(_fail("canon-api", "%s: canonicalise did not return the object" % where))
+        elif st["op"] == "std" and st.get("api") == "categorize" and isinstance(got, list) and len(got) == 2:
+            tgt = _std_modes()[4][1](st["rsmi"])
+            want = [[x for x in st["others"] if x == tgt], [x for x in st["others"] if x != tgt]]
+            if got != want:
+                fails.append(_fail("standardize-api", "%s: categorize_reactions gives %r, expected %r" % (where, got, want)))
         elif st["op"] == "helpers" and isinstance(got, list) and len(got) == 4 and (got[0] != got[1] or got[2] != got[3]):
             fails.append(_fail("canon-api", "%s: get_aam_pairwise_indices forms differ or remap_graph(list[int]) <> remap_graph(pairs): %s"
                                % (where, json.dumps(got)[:300])))
@@ -930,6 +940,11 @@ def gen_histories(tier, rng, corp):
                                        dict(op="bal", obj="b", api="dict", rsmis=rs, column="r"), dict(op="bal", obj="b", api="dicts_one", rsmis=rs[1:]),
                                        dict(op="bal", obj="b", api="formula", rsmis=rs), dict(op="bal", obj="b", api="parse", rsmis=rs, column="k")],
                                "hb#%d" % n_))
+    # the same reaction several times in one batch (repeated records must all come back)
+    rep = [brs[0], HAND_BALANCE[1], brs[0], HAND_BALANCE[1], brs[0]]
+    cases.append(_hist("bal", [dict(op="bnew", obj="b", n_jobs=1), dict(op="bal", obj="b", api="dicts", rsmis=rep, column="rx"),
+                               dict(op="bal", obj="b", api="dicts_str", rsmis=rep), dict(op="bal", obj="b", api="rsmi", rsmis=rep),
+                               dict(op="bal", obj="b", api="dict", rsmis=rep, column="rx")], "repeated"))
     cases.append(_hist("bal", [dict(op="bnew", obj="b", n_jobs=1), dict(op="bal", obj="b", api="rsmi", rsmis=[d for d in DEGENERATE]),
                                dict(op="bal", obj="b", api="dicts_str", rsmis=[d for d in DEGENERATE]),
                                dict(op="bal", obj="b", api="dicts", rsmis=[], column="x"), dict(op="bal", obj="b", api="formula", rsmis=DEGENERATE[:6])],
